@@ -79,3 +79,32 @@ Proof.
   | H : _ = e |- _ => subst e; vm_compute in Hp; try discriminate Hp; inversion Hp; subst l r; vm_compute; intuition discriminate
   end.
 Qed.
+
+(* ---- the specification-level theorems (SpecBridge): the example documents and assignment are supported ---- *)
+From BE Require Import Model.Spec Proofs.CanonProof Proofs.DenoteProof Proofs.SpecBridge.
+Local Ltac good_val :=
+  unfold wf_val, val_mod, asg_mod, ex_parsers, modelled, wf_shape, float_ok, elems, ein, iv; cbn [e_val map slice_ty type_of ty_of_ikind slice_of];
+  repeat split; repeat constructor.
+Example ex_docs_good : forall d, In d ex_docs -> doc_good ex_parsers d.
+Proof.
+  intros d Hd cj f es e Hcj Hf He. unfold ex_docs in Hd. cbn [In] in Hd.
+  repeat match goal with
+  | H : _ \/ _ |- _ => destruct H as [H|H]
+  | H : False |- _ => contradiction
+  | H : _ = d |- _ => subst d; cbn [d_conjs In] in Hcj
+  | H : _ = cj |- _ => subst cj; cbn [In] in Hf
+  | H : _ = (f, es) |- _ => inversion H; subst f es; clear H; cbn [In] in He
+  | H : _ = e |- _ => subst e; good_val
+  end.
+Qed.
+Example ex_q_good : asg_good ex_parsers ex_q.
+Proof.
+  intros f v H. unfold ex_q in H. cbn [In] in H.
+  repeat match goal with
+  | H : _ \/ _ |- _ => destruct H as [H|H]
+  | H : False |- _ => contradiction
+  | H : _ = (f, v) |- _ => inversion H; subst f v; clear H; split; [|split]; [good_val | good_val | vm_compute; discriminate]
+  end.
+Qed.
+Example ex_spec_says : sat_hits [] ex_parsers PolError pl_docok ex_docs ex_q = Some [(1, (0, 1))]%Z.
+Proof. vm_compute. reflexivity. Qed.
